@@ -90,6 +90,9 @@ pub struct Stats {
     /// reports the cap instead of calling itself exhaustive
     pub wall_cap_s: f64,
     cap_reported: std::sync::atomic::AtomicBool,
+    /// representative cases (drive-call ordinal, case index, case) for the interference stage
+    reps: Mutex<Vec<(u64, usize, Case)>>,
+    pub drive_calls: AtomicU64,
 }
 
 impl Stats {
@@ -120,7 +123,26 @@ impl Stats {
                     Tier::Thorough => 3600.0,
                 }),
             cap_reported: std::sync::atomic::AtomicBool::new(false),
+            reps: Mutex::new(Vec::new()),
+            drive_calls: AtomicU64::new(0),
         }
+    }
+    /// remember a representative case for the interference stage
+    pub fn rep(&self, call: u64, index: usize, case: &Case) {
+        let mut r = self.reps.lock().unwrap();
+        if r.len() < 4096 {
+            r.push((call, index, case.clone()));
+        }
+    }
+    /// up to `max` representatives, spread evenly over the recorded ones (deterministic)
+    pub fn representatives(&self, max: usize) -> Vec<Case> {
+        let mut r = self.reps.lock().unwrap().clone();
+        r.sort_by(|a, b| (a.0, a.1).cmp(&(b.0, b.1)));
+        r.dedup_by(|a, b| a.2.files == b.2.files && a.2.label == b.2.label);
+        if r.len() <= max {
+            return r.into_iter().map(|x| x.2).collect();
+        }
+        (0..max).map(|k| r[k * r.len() / max].2.clone()).collect()
     }
     /// true once the wall-clock cap is exceeded (reported once as a cap hit)
     pub fn past_cap(&self) -> bool {
@@ -269,25 +291,229 @@ pub fn load_known_findings() -> Vec<KnownFinding> {
     v
 }
 
+/// Run the given cases one after the other in ONE fresh child process (single thread) and return
+/// the verdict string of each ("OK" or the failure text). Used by the interference stage: a case
+/// must give the same verdict alone and after any other case (process-global / thread-local state).
+pub fn seq_results(cases: &[Case]) -> Result<Vec<String>, String> {
+    seq_results_with(cases, 0x5eed)
+}
+
+/// `seq_results` with the hash-key base the child arms its (single) thread with.
+pub fn seq_results_with(cases: &[Case], base: u64) -> Result<Vec<String>, String> {
+    use std::io::Write;
+    let exe = std::env::current_exe().map_err(|e| e.to_string())?;
+    let mut child = std::process::Command::new(exe)
+        .arg("seq")
+        .arg(base.to_string())
+        .stdin(std::process::Stdio::piped())
+        .stdout(std::process::Stdio::piped())
+        .stderr(std::process::Stdio::null())
+        .spawn()
+        .map_err(|e| format!("cannot start child process: {e}"))?;
+    let text = serde_json::to_string(cases).map_err(|e| e.to_string())?;
+    {
+        let mut stdin = child.stdin.take().ok_or("no stdin")?;
+        // write from a thread so that a child that prints a lot cannot deadlock us
+        let h = std::thread::spawn(move || {
+            let _ = stdin.write_all(text.as_bytes());
+        });
+        let _ = h.join();
+    }
+    let out = child.wait_with_output().map_err(|e| e.to_string())?;
+    let s = String::from_utf8_lossy(&out.stdout);
+    let v: Vec<String> = serde_json::from_str(s.trim()).map_err(|e| format!("child output unreadable ({e}): {}", s.chars().take(200).collect::<String>()))?;
+    if v.len() != cases.len() {
+        return Err(format!("child returned {} verdicts for {} cases", v.len(), cases.len()));
+    }
+    Ok(v)
+}
+
+/// The predecessors stored in a case by the interference stage (`expect.__after`).
+pub fn predecessors(case: &Case) -> Option<Vec<Case>> {
+    let a = case.expect.get("__after")?;
+    if a.is_null() {
+        return None;
+    }
+    serde_json::from_value(a.clone()).ok()
+}
+
+/// Verdict of an interference case: the case alone in a fresh process vs after its predecessors.
+pub fn interference_check(case: &Case) -> Result<(), String> {
+    let before = predecessors(case).unwrap_or_default();
+    let base = case.expect.get("__base").and_then(|b| b.as_u64());
+    let mut plain = case.clone();
+    if let Some(o) = plain.expect.as_object_mut() {
+        o.remove("__after");
+        o.remove("__base");
+    }
+    plain.kind = plain.kind.trim_start_matches("interference/").to_string();
+    // reference: the case by itself in a fresh process (keys as in the stage that found it)
+    let alone_base = if base.is_some() { crate::props::case_seed(&plain) } else { 0x5eed };
+    let alone = seq_results_with(std::slice::from_ref(&plain), alone_base).map_err(|e| format!("MACHINERY: {e}"))?;
+    let mut all = before.clone();
+    all.push(plain);
+    let after = seq_results_with(&all, base.unwrap_or(0x5eed)).map_err(|e| format!("MACHINERY: {e}"))?;
+    if alone.last() != after.last() {
+        return Err(format!(
+            "the verdict for this case depends on what the process did before (or on the hash keys of its thread): alone `{}`, after {} other case(s) [{}] `{}`",
+            alone.last().map(|s| s.chars().take(300).collect::<String>()).unwrap_or_default(),
+            before.len(),
+            before.iter().rev().take(3).map(|c| c.label.chars().take(80).collect::<String>()).collect::<Vec<_>>().join(" ; "),
+            after.last().map(|s| s.chars().take(300).collect::<String>()).unwrap_or_default()
+        ));
+    }
+    Ok(())
+}
+
+/// Interference stage (all checks): every ordered pair of up to 20 representative cases is run
+/// in a fresh single-threaded child process; the second case must get the verdict it gets alone.
+fn interference_stage(stats: &Stats) -> (Vec<Violation>, Value) {
+    use rayon::prelude::*;
+    if std::env::var("VERIF_NO_INTERFERENCE").is_ok() {
+        return (Vec::new(), json!({"skipped": "VERIF_NO_INTERFERENCE"}));
+    }
+    let reps: Vec<Case> = stats.representatives(24).into_iter().filter(|c| predecessors(c).is_none()).collect();
+    if reps.len() < 2 {
+        return (Vec::new(), json!({"representatives": reps.len(), "ordered_pairs": 0}));
+    }
+    let alone: Vec<Result<Vec<String>, String>> = reps.par_iter().map(|c| seq_results(std::slice::from_ref(c))).collect();
+    let pairs: Vec<(usize, usize)> = (0..reps.len()).flat_map(|a| (0..reps.len()).map(move |b| (a, b))).collect();
+    let res: Vec<((usize, usize), Result<Vec<String>, String>)> = pairs
+        .par_iter()
+        .map(|(a, b)| ((*a, *b), seq_results(&[reps[*a].clone(), reps[*b].clone()])))
+        .collect();
+    let mut out = Vec::new();
+    let mut machinery = 0;
+    for ((a, b), r) in res {
+        match (&alone[b], &r) {
+            (Ok(x), Ok(y)) => {
+                if x.last() != y.last() {
+                    let mut case = reps[b].clone();
+                    if !case.expect.is_object() {
+                        case.expect = json!({"__inner": case.expect});
+                    }
+                    case.expect["__after"] = json!([reps[a]]);
+                    case.kind = format!("interference/{}", case.kind);
+                    out.push(Violation {
+                        message: format!(
+                            "the verdict for this case depends on what the process did before: alone `{}`, after [{}] `{}`",
+                            x.last().map(|s| s.chars().take(300).collect::<String>()).unwrap_or_default(),
+                            reps[a].label.chars().take(120).collect::<String>(),
+                            y.last().map(|s| s.chars().take(300).collect::<String>()).unwrap_or_default()
+                        ),
+                        case,
+                        finding_key: None,
+                    });
+                }
+            }
+            _ => machinery += 1,
+        }
+    }
+    // the whole list in one process, forward and reversed (state that needs many calls to build up)
+    for rev in [false, true] {
+        let order: Vec<usize> = if rev { (0..reps.len()).rev().collect() } else { (0..reps.len()).collect() };
+        let list: Vec<Case> = order.iter().map(|i| reps[*i].clone()).collect();
+        match seq_results(&list) {
+            Ok(vs) => {
+                for (pos, i) in order.iter().enumerate() {
+                    if let Ok(x) = &alone[*i] {
+                        if x.last() != vs.get(pos) {
+                            let mut case = reps[*i].clone();
+                            if !case.expect.is_object() {
+                                case.expect = json!({"__inner": case.expect});
+                            }
+                            case.expect["__after"] = json!(list[..pos].to_vec());
+                            case.kind = format!("interference/{}", case.kind);
+                            out.push(Violation {
+                                message: format!(
+                                    "the verdict for this case depends on what the process did before: alone `{}`, after {} other cases `{}`",
+                                    x.last().map(|s| s.chars().take(300).collect::<String>()).unwrap_or_default(),
+                                    pos,
+                                    vs.get(pos).map(|s| s.chars().take(300).collect::<String>()).unwrap_or_default()
+                                ),
+                                case,
+                                finding_key: None,
+                            });
+                            break;
+                        }
+                    }
+                }
+            }
+            Err(_) => machinery += 1,
+        }
+    }
+    // long run: up to 96 representatives one after the other, then the same list again, in one
+    // process; the second verdict of every case must equal its first (caches with eviction,
+    // counters that saturate, state that needs dozens of calls to build up)
+    let long: Vec<Case> = stats.representatives(96).into_iter().filter(|c| predecessors(c).is_none()).collect();
+    let mut long_len = 0;
+    if long.len() > reps.len() {
+        long_len = long.len();
+        let mut twice = long.clone();
+        twice.extend(long.iter().cloned());
+        match seq_results(&twice) {
+            Ok(vs) => {
+                for i in 0..long.len() {
+                    if vs[i] != vs[i + long.len()] {
+                        let mut case = long[i].clone();
+                        if !case.expect.is_object() {
+                            case.expect = json!({"__inner": case.expect});
+                        }
+                        case.expect["__after"] = json!(twice[..i + long.len()].to_vec());
+                        case.kind = format!("interference/{}", case.kind);
+                        out.push(Violation {
+                            message: format!(
+                                "the verdict for this case changes when it is repeated after {} other cases in the same process: first `{}`, then `{}`",
+                                long.len(),
+                                vs[i].chars().take(300).collect::<String>(),
+                                vs[i + long.len()].chars().take(300).collect::<String>()
+                            ),
+                            case,
+                            finding_key: None,
+                        });
+                        break;
+                    }
+                }
+            }
+            Err(_) => machinery += 1,
+        }
+    }
+    let n = reps.len();
+    (out, json!({"representatives": n, "ordered_pairs": n * n, "whole_list_runs": 2, "long_run_cases": long_len * 2, "child_processes": n * n + n + 2, "child_failures": machinery}))
+}
+
 /// Final step of every check: confirm violations by replaying them twice, write replay
 /// files and the evidence file, print the verdict lines. Returns the process exit code.
 pub fn finish(
     stats: &Stats,
     rule: &str,
     assumptions: &[&str],
-    recheck: &dyn Fn(&Case) -> Result<(), String>,
+    recheck: &(dyn Fn(&Case) -> Result<(), String> + Sync),
     floors: &[(&str, bool)],
 ) -> i32 {
     let known = load_known_findings();
+    let (interference, interference_cov) = interference_stage(stats);
+    for v in interference {
+        stats.violation(v);
+    }
+    stats.set("interference_stage", interference_cov);
     let totals = stats.violation_totals();
     let violations = stats.take_violations();
     let mut confirmed: Vec<Violation> = Vec::new();
     let mut known_hits: BTreeMap<String, (String, u64, Case)> = BTreeMap::new();
     let mut machinery_errors = Vec::new();
     for v in violations {
-        // replay twice from the case alone (no explorer state)
-        let r1 = recheck(&v.case);
-        let r2 = recheck(&v.case);
+        // replay twice from the case alone (no explorer state); interference cases are replayed
+        // in fresh child processes together with their predecessors
+        let (r1, r2) = if predecessors(&v.case).is_some() {
+            (interference_check(&v.case), interference_check(&v.case))
+        } else {
+            let seed = crate::props::case_seed(&v.case);
+            (
+                crate::engine::seeded(seed, || recheck(&v.case)),
+                crate::engine::seeded(seed, || recheck(&v.case)),
+            )
+        };
         match (&r1, &r2) {
             (Err(a), Err(b)) if a == b => {}
             (Ok(()), Ok(())) => {
